@@ -301,6 +301,16 @@ def rule_refresh(ctx):
         else:
             ctx.ok("WR.REFRESH", site, fi, test, "refresh is taken when `not array_equal(index_initial, index)` "
                    "(True without an initial index) OR `index_initial[-1] != STOP`; no tolerance on that path")
+    # 1b. in writer.write itself STRT/STOP/STEP values are set through the refresh call only (the normalisation loop of
+    #     standardize_value aside): a second, partial way of setting them (e.g. "honour STOP= when no refresh is due") leaves a
+    #     header that disagrees with the data and makes the *next* write refresh everything
+    for s_ in walk_shallow(fi.node):
+        if isinstance(s_, ast.Assign) and len(s_.targets) == 1:
+            key = _well_item_store(s_.targets[0], "value")
+            if key in ("STRT", "STOP", "STEP"):
+                ctx.bad("WR.REFRESH", "writer.write#direct-store(%s)" % key, fi, s_, "`%s` sets the %s value directly in writer.write, outside "
+                        "update_start_stop_step: STRT/STOP/STEP are no longer refreshed together, so a later write sees a STOP that "
+                        "disagrees with the data and rewrites all three" % (unparse(s_)[:70], key))
     # 2. what the refresh stores
     uf = p.func("las.LASFile.update_start_stop_step")
     ucfg = build_cfg(p, uf)
